@@ -30,6 +30,18 @@ func c14Enc(p *curve.EdwardsPoint) []byte {
 	return append([]byte(nil), c[:]...)
 }
 
+// c14Operand checks that a returned point also works as an OPERAND: the
+// encoding reads X, Y, Z only, the next addition reads the extended coordinate
+// T as well.  p + B must be want + B.
+func c14Operand(r *h.R, sig string, p *curve.EdwardsPoint, want ref.Point) {
+	r.Eval(1)
+	var sum curve.EdwardsPoint
+	sum.Add(p, curve.ED25519_BASEPOINT_POINT)
+	if g, w := c14Enc(&sum), ref.Add(want, ref.Base).Encode(); !bytes.Equal(g, w) {
+		r.Fail(sig+":result-unusable-as-operand", "the point encodes as %x but point + B = %x, want %x (inconsistent T coordinate)", c14Enc(p), g, w)
+	}
+}
+
 func c14RistEnc(p *curve.RistrettoPoint) []byte {
 	var c curve.CompressedRistretto
 	c.SetRistrettoPoint(p)
@@ -178,6 +190,9 @@ func c14CheckSuite(c c14SuiteCase) h.Result {
 	if on, canon, tf := c14PrimeOrder(got); !on || !canon || !tf {
 		r.Fail(sigName+":not-in-prime-order-subgroup", "dst=%x msg=%x got=%x oncurve=%v canonical=%v [L]P=O:%v", []byte(c.DST), []byte(c.Msg), got, on, canon, tf)
 	}
+	if !r.Failed() {
+		c14Operand(r, sigName, ep, want)
+	}
 	return r.Result()
 }
 
@@ -255,9 +270,12 @@ func c14CheckUni(c c14UniCase) h.Result {
 			r.Class("nu:identity").NT(true)
 		}
 		r.Eval(2)
-		got := c14Enc(encodeToCurve(&ub))
+		gp := encodeToCurve(&ub)
+		got := c14Enc(gp)
 		if !bytes.Equal(got, want.Encode()) {
 			r.Fail("h2c.encodeToCurve:wrong-point", "chunk %d uniform=%x got=%x want=%x", i, p.b, got, want.Encode())
+		} else {
+			c14Operand(r, "h2c.encodeToCurve", gp, want)
 		}
 		if on, canon, tf := c14PrimeOrder(got); !on || !canon || !tf {
 			r.Fail("h2c.encodeToCurve:not-in-prime-order-subgroup", "uniform=%x got=%x", p.b, got)
@@ -275,9 +293,12 @@ func c14CheckUni(c c14UniCase) h.Result {
 		r.Class("ro:identity").NT(true)
 	}
 	r.Eval(2)
-	got := c14Enc(hashToCurve(&ub))
+	gp := hashToCurve(&ub)
+	got := c14Enc(gp)
 	if !bytes.Equal(got, want.Encode()) {
 		r.Fail("h2c.hashToCurve:wrong-point", "uniform=%x got=%x want=%x", ub[:], got, want.Encode())
+	} else {
+		c14Operand(r, "h2c.hashToCurve", gp, want)
 	}
 	if on, canon, tf := c14PrimeOrder(got); !on || !canon || !tf {
 		r.Fail("h2c.hashToCurve:not-in-prime-order-subgroup", "uniform=%x got=%x", ub[:], got)
